@@ -176,6 +176,8 @@ func (e *Engine) addHarnessAPI(p string) {
 			o.MapOrder = v
 		case "poolany":
 			o.PoolAny = v != 0
+		case "exprtable":
+			o.ExprTable = v != 0
 		default:
 			c.s.unsupported("vOpt(%q)", c.str(0))
 		}
